@@ -49,14 +49,15 @@ Qed.
 
 Lemma c02_sw_unit_variant v st sv st' : sw_unit_variant_of uc v st = Ok (sv, st') ->
   vd_wire (sw_obs_variant sv) = renamed (vid (variant_shared v)) /\
-  c02_sw_named false (original (vid (variant_shared v))) (vd_name (sw_obs_variant sv)) /\
+  c02_sw_named true (original (vid (variant_shared v))) (vd_name (sw_obs_variant sv)) /\
   vd_payload (sw_obs_variant sv) = PayUnit.
 Proof.
+  (* fix 31: the unit arm puts `_` in front of a digit-initial camelCased name as the algebraic arm does *)
   unfold sw_unit_variant_of. intros H. apply mbind_ok in H as (camel & s1 & Hc & H). apply c02_sw_lift_ok in Hc.
   unfold ret in H. injection H as <- _. cbn [sw_obs_variant vd_wire vd_name vd_payload swv_raw swv_name swv_payload].
   repeat split.
-  - destruct (str_eqb (renamed (vid (variant_shared v))) camel) eqn:E; [|reflexivity]. apply str_eqb_eq in E. now symmetry.
-  - exists camel. split; [exact Hc|]. cbn [andb]. now destruct camel.
+  - match goal with |- context [str_eqb ?r ?n] => destruct (str_eqb r n) eqn:E end; [|reflexivity]. apply str_eqb_eq in E. now symmetry.
+  - exists camel. split; [exact Hc|]. cbn [andb]. reflexivity.
 Qed.
 
 Lemma c02_sw_variant shared v st sv st' : sw_variant_of uc cfg shared v st = Ok (sv, st') ->
@@ -100,7 +101,7 @@ Proof.
   destruct e as [sh|tag content sh]; cbn [enum_shared] in *.
   - (* String-backed enum *)
     apply (mmapM_Forall2 _ (fun v sv => vd_wire (sw_obs_variant sv) = renamed (vid (variant_shared v)) /\
-                                        c02_sw_named false (original (vid (variant_shared v))) (vd_name (sw_obs_variant sv)) /\
+                                        c02_sw_named true (original (vid (variant_shared v))) (vd_name (sw_obs_variant sv)) /\
                                         vd_payload (sw_obs_variant sv) = PayUnit)) in Hv.
     2:{ intros v s0 sv s0' Hx. exact (c02_sw_unit_variant _ _ _ _ Hx). }
     assert (Hw : map vd_wire (d_variants d) = map (fun v => renamed (vid (variant_shared v))) (evariants sh)).
@@ -111,7 +112,7 @@ Proof.
     split.
     + apply c02_good_core_intro; [now apply c02_plain_not_enum|reflexivity|].
       apply c02_good_enum_intro; [exact Hw|exact Hk|reflexivity].
-    + intros Hkn. apply (Hcases false Hkn). subst d. cbn [sw_obs_enum d_variants swe_variants]. rewrite map_map.
+    + intros Hkn. apply (Hcases true Hkn). subst d. cbn [sw_obs_enum d_variants swe_variants]. rewrite map_map.
       eapply c02_Forall2_maps; [exact Hv|]. intros v sv (_ & E & _). exact E.
   - (* enum with associated values *)
     pose proof (mmapM_length _ _ _ _ _ Hv) as Hlen.
